@@ -92,6 +92,10 @@ def run(cut, tree, argv, stdin=b"", tty=None, uid=0, env=None, timeout=8, strace
             os.lchown(os.path.join(root.encode(), q), 0, 0)
     before = snapshot(root)
     e = {"PATH": "/usr/bin:/bin", "TMPDIR": tmpd, "LC_ALL": "C", "HOME": top}
+    if os.environ.get("VERIF_COVERAGE"):
+        # development aid (tools/coverage.sh): every run writes its gcov counters to a directory of its own, merged afterwards
+        e["GCOV_PREFIX"] = os.path.join(top, "gcov"); e["GCOV_PREFIX_STRIP"] = "0"
+        os.makedirs(e["GCOV_PREFIX"]); os.chmod(e["GCOV_PREFIX"], 0o777)
     if sanitize:
         e["ASAN_OPTIONS"] = "detect_leaks=0"; e["UBSAN_OPTIONS"] = "print_stacktrace=1:halt_on_error=1"
     if env:
@@ -170,6 +174,13 @@ def run(cut, tree, argv, stdin=b"", tty=None, uid=0, env=None, timeout=8, strace
     r.tmp_left = sorted(os.listdir(tmpd))
     r.strace = open(logf, "rb").read() if logf and os.path.exists(logf) else None
     r.root = root
+    if os.environ.get("VERIF_COVERAGE") and not r.timeout and r.exit in (0, 1, 2) and not (strace and strace.get("inject")):
+        # keep the counters of runs that ended by themselves (a killed or fault-injected run may have torn counter files)
+        pool = os.path.join(common.WORK, "covpool")
+        os.makedirs(pool, exist_ok=True)
+        g = os.path.join(top, "gcov")
+        if os.path.isdir(g) and any(fs for _, _, fs in os.walk(g)):
+            shutil.move(g, os.path.join(pool, os.path.basename(top)))
     if not keep:
         shutil.rmtree(top, ignore_errors=True)
     return r
